@@ -17,6 +17,8 @@ for it in range(N):
     nested = bool(rs.randint(2))
     lazy_decl = bool(rs.randint(2))   # instruments declared up front but created on first use keep their multiplier
     secs = [Security(n, multiplier=mults[n], lazy_add=lazy_decl and rs.rand() < 0.5) for n in names]
+    if lazy_decl:       # the last instrument: declared lazily, given a multiplier and left untraded until the hedge uses it
+        secs[-1] = Security(names[-1], multiplier=float(rs.choice([10.0, 0.5, 100.0])), lazy_add=True); mults[names[-1]] = secs[-1].multiplier
     if nested:
         k = max(1, n_sec // 2)
         sub = Strategy("sub", [], children=secs[:k])
@@ -38,7 +40,7 @@ for it in range(N):
     if nested: s.allocate(2e6, "sub")   # a sub-strategy needs capital of its own before it trades (return on a zero base raises, C10)
     holder = lambda n: (s["sub"] if nested and n in [x.name for x in secs[:max(1, n_sec // 2)]] else s)
     for n in names:
-        if rs.rand() < 0.8:
+        if rs.rand() < 0.8 and not (lazy_decl and n == names[-1]):
             q = float(rs.randint(-50, 50))
             holder(n).transact(q, n)
     hist_of = {m: (hist if rs.rand() < 0.5 else int(rs.randint(0, 3))) for m in measures}      # measures may keep history to different depths
@@ -69,6 +71,7 @@ for it in range(N):
     if n_sec - (max(1, n_sec // 2) if nested else 0) >= k:
         pool = [x.name for x in (secs[max(1, n_sec // 2):] if nested else secs)]   # instruments held directly by s
         inst = list(rs.choice(pool, size=k, replace=False))
+        if lazy_decl and names[-1] in pool and names[-1] not in inst: inst[-1] = names[-1]      # hedge with the untraded lazily declared instrument
         J = np.array([[(float(unit[m][i_].loc[dts[2]]) if i_ in unit[m].columns else 0.0) * mults[i_] for m in measures] for i_ in inst])
         if abs(np.linalg.det(J)) > 1e-3:
             try:
